@@ -340,6 +340,11 @@ func runC05(c *report.Ctx) {
 	// ---- (6) rows readable with the public passphrase hold public keys only -----------------------------------
 	rulePublicRowsHoldNeuteredKeys(c)
 	ruleWipedCacheDropped(c)
+
+	// ---- the unlock state and the cached private material are touched only under the managers' locks -----------------
+	secretLocs := map[string]bool{"AddrManager.unlocked": true, "AddrManager.masterKeyPriv": true, "AddrManager.cryptoKeyPriv": true, "SecretKey.Key": true, "SecretKey.Parameters": true,
+		"ManagedAddress.privKey": true, "accountInfo.acctKeyPriv": true, "branchInfo.externalBranchPriv": true, "branchInfo.internalBranchPriv": true}
+	ruleCommonLock(c, func(loc string) bool { return secretLocs[loc] }, "the unlock flag, the master/crypto private keys and the cached private keys are written and read under a common exclusive lock: a refused passphrase attempt that runs concurrently with a successful one cannot leave its wrongly derived key in an unlocked manager", 3)
 }
 
 func rootBase(fa *ssa.FieldAddr) ssa.Value {
